@@ -186,6 +186,8 @@ def apply_edits(item, edits, twin_false=False):
             item.replace(kind, e["a"], e["b"], int(at.get("count", "1")), at.get("why", ""))
         elif k == "desugar-for":
             item.desugar_for(int(at["loop"]), at.get("it", "vit"))
+        elif k == "desugar-match-str":
+            item.desugar_match_str(int(at.get("nth", "1")), at.get("eq", "ext_streq"))
         elif k == "name-return":
             item.name_return(at.get("name") or list(at.keys())[0])
         elif k == "contract":
@@ -196,8 +198,12 @@ def apply_edits(item, edits, twin_false=False):
                 if twin_false:
                     text = _with_false(text)
                 item.insert_at_signature(text)
+            elif where.startswith("loop-end:"):
+                item.insert_at_loop_end(int(where[9:]), text)
             elif where.startswith("loop:"):
                 item.insert_at_loop(int(where[5:]), text)
+            elif where == "after-stmt":
+                item.insert_after_stmt(at["anchor"], int(at.get("nth", "1")), text)
             elif where in ("before", "after"):
                 item.insert_before(at["anchor"], int(at.get("nth", "1")), text, after=(where == "after"))
             else:
